@@ -314,13 +314,27 @@ fn battery(ctx: &mut Ctx, st: &mut St, req: &Request, p: &Proof, r: &mut Rng, pr
                     ctx.count(&format!("refused-as:{}", outcome_name(&res)));
                     let o = obs_of(&mut a);
                     let f = crate::world::snapshot(&a.world);
-                    if o != obs_a0 || f != files_a0 {
-                        let which = if o != obs_a0 { "observation" } else { "store bytes" };
+                    if o != obs_a0 {
                         ctx.violate(
-                            format!("refused-but-changed:{}:{which}", c.kind),
-                            format!("proof altered by {} was refused ({}) but the replica's {which} changed", c.name, outcome_name(&res)),
+                            format!("refused-but-changed:{}:observation", c.kind),
+                            format!("proof altered by {} was refused ({}) but the replica's observation changed", c.name, outcome_name(&res)),
                             json!({"kind":"session","script": st.script, "alteration": c.name, "proof_no": proof_no}),
                         );
+                        a = clone_by_replay(st)?;
+                        files_a0 = crate::world::snapshot(&a.world);
+                    } else if f != files_a0 {
+                        // store bytes changed although nothing is observable now: the property speaks of
+                        // observations, so this decides only if it becomes observable after a reopen
+                        let mut ro = clone_by_reopen(&f, &st.replica.model)?;
+                        if obs_of(&mut ro) != obs_a0 {
+                            ctx.violate(
+                                format!("refused-but-changed:{}:observation-after-reopen", c.kind),
+                                format!("proof altered by {} was refused ({}) and the replica's stores changed so that a reopen shows a different state", c.name, outcome_name(&res)),
+                                json!({"kind":"session","script": st.script, "alteration": c.name, "proof_no": proof_no}),
+                            );
+                        } else {
+                            ctx.count("warn:refused-proof-changed-store-bytes-unobservably");
+                        }
                         a = clone_by_replay(st)?;
                         files_a0 = crate::world::snapshot(&a.world);
                     }
@@ -351,13 +365,23 @@ fn battery(ctx: &mut Ctx, st: &mut St, req: &Request, p: &Proof, r: &mut Rng, pr
                     }
                     let o = obs_of(&mut c2);
                     let f = crate::world::snapshot(&c2.world);
-                    if o != o0 || f != files_s {
-                        let which = if o != o0 { "observation" } else { "store bytes" };
+                    if o != o0 {
                         ctx.violate(
-                            format!("refused-but-changed:{}:{which}", c.kind),
-                            format!("proof altered by {} was refused ({}) but the replica's {which} changed", c.name, outcome_name(&res)),
+                            format!("refused-but-changed:{}:observation", c.kind),
+                            format!("proof altered by {} was refused ({}) but the replica's observation changed", c.name, outcome_name(&res)),
                             json!({"kind":"session","script": st.script, "alteration": c.name, "proof_no": proof_no}),
                         );
+                    } else if f != files_s {
+                        let mut ro = clone_by_reopen(&f, &st.replica.model)?;
+                        if obs_of(&mut ro) != o0 {
+                            ctx.violate(
+                                format!("refused-but-changed:{}:observation-after-reopen", c.kind),
+                                format!("proof altered by {} was refused ({}) and a reopen then shows a different state", c.name, outcome_name(&res)),
+                                json!({"kind":"session","script": st.script, "alteration": c.name, "proof_no": proof_no}),
+                            );
+                        } else {
+                            ctx.count("warn:refused-proof-changed-store-bytes-unobservably");
+                        }
                     }
                 }
             }
